@@ -94,27 +94,24 @@ def Dose.blocks : Dose → List Nat → List Dose
   | .dist vs, cs => (splitBy cs vs).map .dist
 
 /-- rebuilding the transform for a block: `NoiseTransform(dose=block, samples=<whole axis>, seeds=block)`.
-AS-IS: `validate_seeds(block, samples)` asserts `samples == len(block)`. -/
-def rebuildOk (total : Nat) (blk : Seeds) : Bool :=
-  match blk with
-  | .scalar _ => true
-  | .dist vs => vs.length == total
+A block of an already validated seed distribution is accepted as it is. -/
+def rebuildOk (_total : Nat) (_blk : Seeds) : Bool := true
+
+/-- concatenation of the block results along the dose, sample and item axes; `blk a b c D S I` is the result of the
+block with chunk indices `(a, b, c)` -/
+def assemble (dB : List Dose) (sB : List Seeds) (iB : List (List (List Rat)))
+    (blk : Nat → Nat → Nat → Dose → Seeds → List (List Rat) → Arr4 Int) : Arr4 Int :=
+  (dB.zipIdx.map fun Da => (List.range Da.1.values.length).map fun d' =>
+    (sB.zipIdx.map fun Sb => (List.range Sb.1.count).map fun s' =>
+      (iB.zipIdx.map fun Ic => ((blk Da.2 Sb.2 Ic.2 Da.1 Sb.1 Ic.1).getD d' []).getD s' []).flatten).flatten).flatten
 
 /-- lazy evaluation: blocks in row-major order (dose chunk, sample chunk, array chunk); block `t` sees entropy `ent t`.
 The result is assembled along the three chunked axes. -/
 def lazyEval (K : Kernels) (seeds : Seeds) (dose : Dose) (ch : Chunking) (ent : Nat → Nat) (items : List (List Rat)) :
     Except String (Arr4 Int) :=
-  let dB := dose.blocks ch.dose
-  let sB := seeds.blocks ch.samples
-  let iB := splitBy ch.items items
-  if sB.any (fun b => !rebuildOk seeds.count b) then .error "assertion_error" else
-  let blk (a b c : Nat) (D : Dose) (S : Seeds) (I : List (List Rat)) : Arr4 Int :=
-    calcBlock K S D (ent ((a * sB.length + b) * iB.length + c)) I
-  .ok <| dB.zipIdx.flatMap fun (D, a) =>
-    (List.range D.values.length).map fun d' =>
-      sB.zipIdx.flatMap fun (S, b) =>
-        (List.range S.count).map fun s' =>
-          iB.zipIdx.flatMap fun (I, c) => (((blk a b c D S I).getD d' []).getD s' [])
+  if (seeds.blocks ch.samples).any (fun b => !rebuildOk seeds.count b) then .error "assertion_error" else
+  .ok <| assemble (dose.blocks ch.dose) (seeds.blocks ch.samples) (splitBy ch.items items) fun a b c D S I =>
+    calcBlock K S D (ent ((a * (seeds.blocks ch.samples).length + b) * (splitBy ch.items items).length + c)) I
 
 /-! ### the tagging kernels used by the driver (mirrored by the harness' fake `np.random`) -/
 
